@@ -151,7 +151,8 @@ def run(rep, pdb, tier):
         ctx = Ctx.for_fn(pdb, fn)
         from .common import fresh_map
         fm = fresh_map(pdb, ctx)
-        ok = fm is not None and is_abs_term(fm["value"]) and fm["value"][2] == ("idx", VEC0, fm["i"]) and fm["lo"] == num(0) and fm["hi"] in (N0, LEN(VEC0))
+        no_ret = not any(n_.get("k") == "Ret" for n_ in walk(fn["body"]))
+        ok = fm is not None and is_abs_term(fm["value"]) and fm["value"][2] == ("idx", VEC0, fm["i"]) and fm["lo"] == num(0) and fm["hi"] in (N0, LEN(VEC0)) and no_ret
         rep.add("abs-norms/abs", rule, ok, fn["body"], "built by %s" % (fm["kind"] if fm else None), where=loc(fn["body"]))
     fn = pdb.fn("%s::norm_1" % V)
     rule = "norm_1 sums |v_i| over the full range from zero()"
@@ -327,7 +328,7 @@ def run(rep, pdb, tier):
             v = fm["value"]
             if name == "powspace" and v[0] == "op" and v[1] == "+" and v[3][0] == "op" and v[3][3][0] == "call" and str(v[3][3][1]).endswith("powf"):
                 want = ("op", "+", A, ("op", "*", ("op", "-", B, A), ("call", v[3][3][1], ("op", "/", fi, sm1), P(3))))
-            ok = v == want and fm["lo"] == num(0) and fm["hi"] == P(2)
+            ok = v == want and fm["lo"] == num(0) and fm["hi"] == P(2) and not any(n_.get("k") == "Ret" for n_ in walk(fn["body"]))
         rep.add("spacing/%s" % name, rule, ok, fn["body"], "", where=loc(fn["body"]))
     fns = [f for f in pdb.local_fns() if f["file"].startswith("src/vector/")]
     n_sites = rule_index_kinds(rep, pdb, fns)
